@@ -34,6 +34,14 @@ def run(ctx):
             pconfs = [('2', '8', 'o', '3', str(m)) for m in (0, 1, 2, 4, 6, 8, 10, 32, 48, 5)] + [('1', '8', 'o', '1', '0'), ('4', '8', 'o', '3', '16')]
             pprogs = ['A3A6A9/L3L6TL9/Z3Z1Z3', 'A0A4A3A6/Z3L6TL4/Z0Z2T', 'U3U5U6/Z2Z3L6L3T/L5TZ1']
             X.run_cases(ctx, 'partitioned resize with thread-creation faults', pimpl, X.gen(ctx, pprogs, n // 2, 'C09p', pconfs), proto_driver=driver, nontrivial=lambda raw: ' create ' in raw)
+        # lazy resize carried out by the library's work-queue thread (AUTO_RESIZE; the worker is thread 1 of the run), the table emptied and destroyed while the
+        # resize is queued / running / just finished: everything the destruction releases is quarantined, so a late access of the worker is reported
+        acases = []
+        for prog in ('A3A4A6A9L3XL4XL6XL9XY', 'A4A6A3A9L9XL3XL6XL4XY'):
+            for j in range(0, 150 if ctx.quick() else 320, 2 if ctx.quick() else 1):
+                for k in (9, 7):       # the owner completes all (or all but the last two) of its remaining operations at once, after the worker has taken j steps
+                    acases.append((prog, '>0' * 5 + '1b' * j + '>0' * k + '1b' * 3 + '>0>0', ('1', '8', 'o', '0', '0', '1')))
+        X.run_cases(ctx, 'lazy resize by the work-queue thread, destroy of the emptied table', impl, acases, nontrivial=lambda raw: ' free tb' in raw)
         X.run_cases(ctx, 'resize (chunk / mmap allocators, unbounded max)', impl, X.gen(ctx, PROGS, n // 2, 'C09x', OCONFS), nontrivial=nontrivial)
     return finish(ctx, trusted=TRUSTED, rule='parking sweeps (every thread frozen at each step, incl. the resizer between size store, synchronize, unlink and free; updaters between reading size and '
                   'their cmpxchg), double parking (resizer stopped inside a shrink while a reader enters and obtains bucket pointers) + bursty schedules; tables of initial size 1-8, max 4/8/unbounded, with the '
